@@ -113,6 +113,15 @@ def run_case(case, ctx):
         exp = collections.Counter(a) == collections.Counter(b)
         ctx.need(got == exp, "generic/compare_pos_in_iterables/wrong",
                  lambda: "compare(%r,%r)=%r expected %r" % (a, b, got, exp))
+        # the helpers are functions of their arguments: given lists (not iterators) they leave them as they were, the same call
+        # gives the same answer again, and the same list may be passed on both sides
+        la, lb = list(a), list(b)
+        again = [guard(ctx, "compare_pos_in_iterables", lambda: G.compare_pos_in_iterables(la, lb)) for _ in range(2)]
+        ctx.need(again == [exp, exp] and la == list(a) and lb == list(b), "generic/compare_pos_in_iterables/changes-its-arguments",
+                 lambda: "compare(list %r, list %r) twice gave %r (expected %r twice); the lists are now %r and %r" % (a, b, again, exp, la, lb))
+        same = guard(ctx, "compare_pos_in_iterables", lambda: G.compare_pos_in_iterables(la, la))
+        ctx.need(same is True and la == list(a), "generic/compare_pos_in_iterables/not-reflexive-on-one-list-object",
+                 lambda: "compare(x, x) with x=%r gave %r, x is now %r" % (a, same, la))
         if len(a) == len(b) and len(a) >= 2 and set(a) == set(b):
             ctx.nontrivial = True
             ctx.label("cmp-same-support")
